@@ -119,6 +119,24 @@ func (c16) Gen(r *simrt.Rand, idx int, tier string) *Case {
 		// the command runs on a day in the middle of the journal: later entries are in the future
 		c.Today = (min + (max-min)/2).String()
 	}
+	if r.P(0.25) {
+		// genuinely repeated bookings: one to three transactions occur twice (or three times) on their
+		// day, identical in every respect; each of them is a transaction of the ledger
+		var txns []int
+		for i, d := range c.J.Dirs {
+			if d.Kind == "txn" && d.Accrual == nil {
+				txns = append(txns, i)
+			}
+		}
+		for k := r.Range(1, 3); k > 0 && len(txns) > 0; k-- {
+			d := c.J.Dirs[txns[r.Intn(len(txns))]]
+			d.Bookings = append([]Booking(nil), d.Bookings...)
+			c.J.Dirs = append(c.J.Dirs, d)
+			if r.P(0.3) {
+				c.J.Dirs = append(c.J.Dirs, d)
+			}
+		}
+	}
 	cs := c.J.Commodities()
 	if len(cs) == 0 {
 		return nil
